@@ -6,7 +6,7 @@
    functions (ParDefs.footprint) are validated against the implementation by the K-footprint correspondence. *)
 From Coq Require Import List ZArith Bool Lia.
 From GMGP Require Import ParDefs ParProofs ParProofs_smoother_take ParProofs_ext_smoother_take
-  ParProofs_smoother_give ParProofs_ext_smoother_give.
+  ParProofs_smoother_give ParProofs_ext_smoother_give ParProofs_assembly.
 From GMGPGen Require Import ParRegionsGen.
 Import ListNotations.
 Local Open Scope Z_scope.
@@ -16,6 +16,12 @@ Theorem C11_residual_give_race_free : forall d, valid d -> race_free gen_residua
 Proof. exact residual_give_race_free. Qed.
 Theorem C11_residual_take_race_free : forall d, valid d -> race_free gen_residual_take d.
 Proof. exact residual_take_race_free. Qed.
+
+(* direct-solver matrix assembly (cells = CSR rows) *)
+Theorem C11_direct_give_assembly_race_free : forall d, valid d -> race_free gen_direct_give_assembly d.
+Proof. exact direct_give_assembly_race_free. Qed.
+Theorem C11_direct_take_assembly_race_free : forall d, valid d -> race_free gen_direct_take_assembly d.
+Proof. exact direct_take_assembly_race_free. Qed.
 
 (* the smoothers colour the radial lines alternately: ntheta even (every grid PolarGrid accepts) *)
 Theorem C11_smoother_give_race_free : forall d, valid d -> d_nt d mod 2 = 0 -> race_free gen_smoother_give d.
